@@ -519,6 +519,9 @@ class Checker:
                 self.bad("contexts differ", **info)
             else:
                 self.check_metadata(env, fr, info)
+                self.observations_ok = getattr(self, "observations_ok", 0) + 1
+                if self.mode == "suspended" and self.observations_ok % 4 == 1:
+                    self.check_after_failure(env, fr, obj, st, info)
             if st.error is not None:
                 self.bad("Stack.error %r" % (st.error,), **info)
         # the low-level entry point must agree with Frame.contexts
@@ -590,6 +593,36 @@ class Checker:
                 loc = fr.pyframe.f_locals
                 if not (vn in loc and loc[vn] is c.obj):
                     self.bad("varname %r for an item without target is not a local bound to the manager" % vn, meta=True, tgt=tsrc, **info)
+
+    def check_after_failure(self, env, fr, obj, st, info):
+        """C01 whatever happened BEFORE: the analysis of this very frame is made to fail once (it warns and falls back),
+        then the frame is looked at again, undisturbed -- the answer must be the exact one again, metadata included"""
+        from stackscope import _lowlevel
+        import contextlib
+        import io
+        nxt = st.frames[1].pyframe if len(st.frames) > 1 else None
+        orig = _lowlevel.inspect_frame
+
+        def faulty(*a, **k):
+            raise RuntimeError("injected fault in inspect_frame")
+        _lowlevel.inspect_frame = faulty
+        try:
+            with warnings.catch_warnings(record=True), contextlib.redirect_stderr(io.StringIO()):
+                warnings.simplefilter("always")
+                lowlevel.contexts_active_in_frame(fr.pyframe, obj, nxt)
+        except BaseException as ex:
+            self.bad("a fault inside the analysis made contexts_active_in_frame raise %r" % (ex,), **info)
+        finally:
+            _lowlevel.inspect_frame = orig
+        with warnings.catch_warnings(record=True) as wl:
+            warnings.simplefilter("always")
+            again = lowlevel.contexts_active_in_frame(fr.pyframe, obj, nxt)
+        first = [(c.obj, c.is_async, c.is_exiting, c.start_line, c.varname) for c in fr.contexts]
+        second = [(c.obj, c.is_async, c.is_exiting, c.start_line, c.varname) for c in again]
+        # (the exiting entry's obj is filled in by extract from the next frame as well: compare what both have)
+        if [w for w in wl if issubclass(w.category, RuntimeWarning)] or [x[1:] for x in first] != [x[1:] for x in second]:
+            self.bad("after one failed analysis of this frame, an undisturbed one no longer gives the exact answer: %s, before %s"
+                     % ([x[1:] for x in second], [x[1:] for x in first]), **info)
 
     def check_trickfault(self, env, ev, exp, st, obj, info):
         """C20: an exception at any internal step of the trickery analysis must only warn (InspectionWarning) and
